@@ -175,7 +175,7 @@ class H2Peer:
             pos += 9 + length
 
     def _log_progress(self, rid: str, n: int, **upd: Any) -> None:
-        prog = self.progress.setdefault(rid, {"head": False, "body": 0, "done": False})
+        prog = self.progress.setdefault(rid, {"head": False, "body": 0, "done": False, "begun": True})
         if "body_add" in upd:
             prog["body"] += upd.pop("body_add")
         prog.update(upd)
